@@ -33,8 +33,9 @@ CONSTANTS FlagSet     \* BOOLEAN
 \* TLC run covers several engines and a trace spec can take them from a header)
 VARIABLES K,          \* number of kernels in the sequence
           J,          \* jitted_sample_duration (chunk length)
-          NeedsHist   \* subset of 1..K: kernels with needs_history
-params == <<K, J, NeedsHist>>
+          NeedsHist,  \* subset of 1..K: kernels with needs_history
+          NQ          \* number of quantity generators
+params == <<K, J, NeedsHist, NQ>>
 
 NoEpoch == [idx |-> -1]
 Kernels == 1..K
@@ -50,12 +51,14 @@ VARIABLES mode,        \* "none" | "one" | "all": which public sampling call is 
           counter,     \* ListEpochChain._states_counter of the current epoch
           nInfo,       \* per started epoch: number of stored transition infos
           mstate,      \* [Kernels -> tag]: last writer tag of each kernel's block
+          quants,      \* per started epoch: stored generated quantities (after thinning)
+          qbuf,        \* quantities generated in the current chunk
           carry,       \* Engine._prng_key of this chain, as a path in the split tree
           round,       \* key handed to the current round of kernel calls
           log          \* history: every kernel call, in order
 
 evars == <<mode, pc, kk, epoch, warmupEnded, inChunk, chunkbuf, chains, counter, nInfo,
-           mstate, carry, round, log>>
+           mstate, quants, qbuf, carry, round, log>>
 vars  == <<mvars, evars, params>>
 
 Tag(i, t) == <<i, t>>
@@ -77,6 +80,7 @@ EInit ==
   /\ mode = "none" /\ pc = "idle" /\ kk = 1 /\ epoch = NoEpoch /\ warmupEnded = FALSE
   /\ inChunk = 0 /\ chunkbuf = <<>> /\ chains = <<>> /\ counter = 1 /\ nInfo = <<>>
   /\ mstate = AllAt(Tag(0, 0))
+  /\ quants = <<>> /\ qbuf = <<>>
   \* Engine.__init__: one split for init_states, each kernel gets its own sub-key
   /\ carry = <<0>>
   /\ round = <<>>
@@ -93,7 +97,7 @@ SampleNextBegin ==
   /\ mode = "none" /\ HasMore
   /\ mode' = "one" /\ pc' = "start"
   /\ UNCHANGED <<mvars, kk, epoch, warmupEnded, inChunk, chunkbuf, chains, counter, nInfo,
-                 mstate, carry, round, log>>
+                 mstate, carry, round, log, quants, qbuf>>
 
 SampleNextRejected == mode = "none" /\ ~HasMore /\ UNCHANGED <<mvars, evars>>   \* RuntimeError
 
@@ -101,7 +105,7 @@ SampleAllBegin ==
   /\ mode = "none"
   /\ IF HasMore THEN mode' = "all" /\ pc' = "start" ELSE UNCHANGED <<mode, pc>>
   /\ UNCHANGED <<mvars, kk, epoch, warmupEnded, inChunk, chunkbuf, chains, counter, nInfo,
-                 mstate, carry, round, log>>
+                 mstate, carry, round, log, quants, qbuf>>
 
 \* _start_epoch
 StartEpoch ==
@@ -111,12 +115,13 @@ StartEpoch ==
      /\ epoch' = [idx |-> ptr, type |-> c.type, dur |-> c.dur, thin |-> c.thin,
                   time |-> nextStart, tie |-> 0]
      /\ chains' = Append(chains, <<>>) /\ nInfo' = Append(nInfo, 0) /\ counter' = 1
+     /\ quants' = Append(quants, <<>>)
      /\ IF ~warmupEnded /\ c.type = POST
         THEN /\ pc' = "endwarm" /\ kk' = 1
              /\ carry' = SplitCarry /\ round' = HandOut(1)
         ELSE /\ pc' = (IF c.type = INITIAL THEN "init" ELSE "prestart") /\ kk' = 1
              /\ UNCHANGED <<carry, round>>
-  /\ UNCHANGED <<mode, warmupEnded, inChunk, chunkbuf, mstate, log>>
+  /\ UNCHANGED <<mode, warmupEnded, inChunk, chunkbuf, mstate, log, qbuf>>
 
 \* _end_warmup, one kernel call at a time
 EndWarmup(k) ==
@@ -127,16 +132,29 @@ EndWarmup(k) ==
           /\ pc' = "prestart" /\ kk' = 1
      ELSE kk' = k + 1 /\ UNCHANGED <<warmupEnded, pc>>
   /\ UNCHANGED <<mvars, mode, epoch, inChunk, chunkbuf, chains, counter, nInfo, mstate,
-                 carry, round>>
+                 carry, round, quants, qbuf>>
 
 \* _handle_inital_values_epoch: no kernel call; initial position at index 0
+\* quantity generators (if any) are evaluated on the initial state, after the epoch's
+\* time was advanced by one; each generator costs one split of the carry
+RECURSIVE InitGenCalls(_, _)
+InitGenCalls(g, c) ==
+  IF g > NQ THEN <<>>
+  ELSE <<Call(g, "generate", [idx |-> 0, type |-> INITIAL, time |-> 1, tie |-> 1], 0, c \o <<1>>)>>
+       \o InitGenCalls(g + 1, c \o <<0>>)
+RECURSIVE Splits(_, _)
+Splits(c, n) == IF n = 0 THEN c ELSE Splits(c \o <<0>>, n - 1)
+QRec(ms, tie, time) == [seen |-> ms, tie |-> tie, time |-> time]
 InitialValues ==
   /\ pc = "init"
   /\ chains' = [chains EXCEPT ![Len(chains)] = <<mstate>>]
+  /\ quants' = [quants EXCEPT ![Len(quants)] = IF NQ > 0 THEN <<QRec(mstate, 1, 1)>> ELSE <<>>]
+  /\ log' = log \o InitGenCalls(1, carry)
+  /\ carry' = Splits(carry, NQ)
   /\ epoch' = NoEpoch
   /\ pc' = "return"
   /\ UNCHANGED <<mvars, mode, kk, warmupEnded, inChunk, chunkbuf, counter, nInfo, mstate,
-                 carry, round, log>>
+                 round, qbuf>>
 
 \* _kernel_start_epoch: split once, then one call per kernel
 PreStart ==
@@ -144,7 +162,7 @@ PreStart ==
   /\ carry' = SplitCarry /\ round' = HandOut(1)
   /\ pc' = "kstart" /\ kk' = 1
   /\ UNCHANGED <<mvars, mode, epoch, warmupEnded, inChunk, chunkbuf, chains, counter, nInfo,
-                 mstate, log>>
+                 mstate, log, quants, qbuf>>
 
 KStart(k) ==
   /\ pc = "kstart" /\ kk = k
@@ -152,15 +170,15 @@ KStart(k) ==
   /\ IF k = K THEN pc' = "sampling" /\ kk' = 1 /\ inChunk' = 0
               ELSE kk' = k + 1 /\ UNCHANGED <<pc, inChunk>>
   /\ UNCHANGED <<mvars, mode, epoch, warmupEnded, chunkbuf, chains, counter, nInfo, mstate,
-                 carry, round>>
+                 carry, round, quants, qbuf>>
 
 \* one iteration of the for-loop of _sample_for_duration: split J+1 keys
 ChunkBegin ==
   /\ pc = "sampling" /\ epoch.tie < epoch.dur
   /\ epoch.dur % J = 0          \* otherwise the engine raises (builder guarantees it)
-  /\ pc' = "iter" /\ kk' = 1 /\ inChunk' = 0 /\ chunkbuf' = <<>>
+  /\ pc' = "iter" /\ kk' = 1 /\ inChunk' = 0 /\ chunkbuf' = <<>> /\ qbuf' = <<>>
   /\ round' = carry /\ carry' = SplitCarry      \* keys of the chunk: round \o <<1..J>>
-  /\ UNCHANGED <<mvars, mode, epoch, warmupEnded, chains, counter, nInfo, mstate, log>>
+  /\ UNCHANGED <<mvars, mode, epoch, warmupEnded, chains, counter, nInfo, mstate, log, quants>>
 
 \* kernel k inside scan_f; iteration j of the chunk uses key round \o <<j>>,
 \* key_trans = that \o <<0>>, kernel key = key_trans \o <<k-1>>
@@ -172,17 +190,24 @@ Transition(k) ==
   /\ mstate' = [mstate EXCEPT ![k] = Tag(epoch.idx, epoch.tie + 1)]
   /\ IF k = K THEN pc' = "iterend" /\ kk' = 1 ELSE kk' = k + 1 /\ pc' = pc
   /\ UNCHANGED <<mvars, mode, epoch, warmupEnded, inChunk, chunkbuf, chains, counter, nInfo,
-                 carry, round>>
+                 carry, round, quants, qbuf>>
 
 \* end of scan_f: advance time, extract the position of *this* iteration
+\* and run the quantity generators on the state after all kernels, with the advanced
+\* epoch; key_quants = (round \o <<j>>) \o <<1>> is split once per generator
 IterEnd ==
   /\ pc = "iterend"
   /\ epoch' = [epoch EXCEPT !.time = @ + 1, !.tie = @ + 1]
   /\ chunkbuf' = Append(chunkbuf, mstate)
+  /\ qbuf' = (IF NQ > 0 THEN Append(qbuf, QRec(mstate, epoch.tie + 1, epoch.time + 1)) ELSE qbuf)
+  /\ log' = log \o [g \in 1..NQ |->
+                      Call(g, "generate", [idx |-> epoch.idx, type |-> epoch.type, time |-> epoch.time + 1,
+                                           tie |-> epoch.tie + 1], 0,
+                           KernelKey((round \o <<inChunk + 1>>) \o <<1>>, g))]
   /\ inChunk' = inChunk + 1
   /\ pc' = (IF inChunk + 1 = J THEN "append" ELSE "iter")
   /\ UNCHANGED <<mvars, mode, kk, warmupEnded, chains, counter, nInfo, mstate, carry, round,
-                 log>>
+                 quants>>
 
 \* after the jitted call: chains.append(chunk) with thinning
 \* (ListEpochChain.append: keep entry i iff (counter + i) % thin = 0, i = 0..J-1)
@@ -195,7 +220,8 @@ ChunkAppend ==
   /\ chains' = [chains EXCEPT ![Len(chains)] = @ \o Kept(chunkbuf, counter, epoch.thin, 1)]
   /\ counter' = (IF epoch.thin > 1 THEN counter + Len(chunkbuf) ELSE counter)
   /\ nInfo' = [nInfo EXCEPT ![Len(nInfo)] = @ + Len(chunkbuf)]
-  /\ chunkbuf' = <<>> /\ inChunk' = 0
+  /\ quants' = [quants EXCEPT ![Len(quants)] = @ \o Kept(qbuf, counter, epoch.thin, 1)]
+  /\ chunkbuf' = <<>> /\ qbuf' = <<>> /\ inChunk' = 0
   /\ pc' = (IF epoch.tie = epoch.dur THEN "preend" ELSE "sampling")
   /\ UNCHANGED <<mvars, mode, kk, epoch, warmupEnded, mstate, carry, round, log>>
 
@@ -205,14 +231,14 @@ PreEnd ==
   /\ carry' = SplitCarry /\ round' = HandOut(1)
   /\ pc' = "kend" /\ kk' = 1
   /\ UNCHANGED <<mvars, mode, epoch, warmupEnded, inChunk, chunkbuf, chains, counter, nInfo,
-                 mstate, log>>
+                 mstate, log, quants, qbuf>>
 
 KEnd(k) ==
   /\ pc = "kend" /\ kk = k
   /\ log' = Append(log, Call(k, "end_epoch", epoch, 0, KernelKey(round, k)))
   /\ IF k = K THEN pc' = "pretune" /\ kk' = 1 ELSE kk' = k + 1 /\ pc' = pc
   /\ UNCHANGED <<mvars, mode, epoch, warmupEnded, inChunk, chunkbuf, chains, counter, nInfo,
-                 mstate, carry, round>>
+                 mstate, carry, round, quants, qbuf>>
 
 \* _tune_kernels
 PreTune ==
@@ -221,7 +247,7 @@ PreTune ==
      THEN carry' = SplitCarry /\ round' = HandOut(1) /\ pc' = "tune" /\ kk' = 1
      ELSE UNCHANGED <<carry, round, kk>> /\ pc' = "finish"
   /\ UNCHANGED <<mvars, mode, epoch, warmupEnded, inChunk, chunkbuf, chains, counter, nInfo,
-                 mstate, log>>
+                 mstate, log, quants, qbuf>>
 
 History == IF NeedsHist # {} THEN chains[Len(chains)] ELSE <<"none">>
 Tune(k) ==
@@ -229,13 +255,13 @@ Tune(k) ==
   /\ log' = Append(log, Call(k, "tune", epoch, [hist |-> History], KernelKey(round, k)))
   /\ IF k = K THEN pc' = "finish" /\ kk' = 1 ELSE kk' = k + 1 /\ pc' = pc
   /\ UNCHANGED <<mvars, mode, epoch, warmupEnded, inChunk, chunkbuf, chains, counter, nInfo,
-                 mstate, carry, round>>
+                 mstate, carry, round, quants, qbuf>>
 
 Finish ==
   /\ pc = "finish"
   /\ epoch' = NoEpoch /\ pc' = "return"
   /\ UNCHANGED <<mvars, mode, kk, warmupEnded, inChunk, chunkbuf, chains, counter, nInfo,
-                 mstate, carry, round, log>>
+                 mstate, carry, round, log, quants, qbuf>>
 
 \* return of sample_next_epoch; sample_all_epochs loops while has_more
 Return ==
@@ -243,7 +269,7 @@ Return ==
   /\ IF mode = "all" /\ HasMore THEN pc' = "start" /\ mode' = mode
                                 ELSE pc' = "idle" /\ mode' = "none"
   /\ UNCHANGED <<mvars, kk, epoch, warmupEnded, inChunk, chunkbuf, chains, counter, nInfo,
-                 mstate, carry, round, log>>
+                 mstate, carry, round, log, quants, qbuf>>
 
 InternalStep ==
   \/ StartEpoch \/ InitialValues \/ PreStart \/ ChunkBegin \/ IterEnd \/ ChunkAppend
@@ -295,7 +321,8 @@ Idle == pc = "idle"
 
 \* C07: the kernel call log is the documented one - whatever the interleaving
 \* of append_epoch / sample_next_epoch / sample_all_epochs
-LifecycleOK == Idle => [i \in 1..Len(log) |-> Strip(log[i])] = CanonLog
+KernelCalls == SelectSeq(log, LAMBDA r : r.kind # "generate")
+LifecycleOK == Idle => [i \in 1..Len(KernelCalls) |-> Strip(KernelCalls[i])] = CanonLog
 
 EndWarmupAtMostOnce ==
   \A k \in Kernels : Cardinality({i \in 1..Len(log) : log[i].k = k /\ log[i].kind = "end_warmup"}) <= 1
@@ -317,6 +344,17 @@ StoredOK ==
                chains[e] = (IF cfgs[e].type = INITIAL THEN <<AllAt(Tag(0, 0))>>
                             ELSE StoredOf(e - 1, cfgs[e]))
           /\ \A e \in 1..ptr : nInfo[e] = (IF cfgs[e].type = INITIAL THEN 0 ELSE cfgs[e].dur)
+
+\* generated quantities: one per stored iteration, computed from the state after all kernels
+\* of that iteration with the advanced epoch, thinned like the positions
+QuantsOK ==
+  Idle => /\ Len(quants) = ptr
+          /\ \A e \in 1..ptr :
+               quants[e] = (IF NQ = 0 THEN <<>>
+                            ELSE IF cfgs[e].type = INITIAL THEN <<QRec(AllAt(Tag(0, 0)), 1, 1)>>
+                            ELSE [j \in 1..Len(StoredIdx(cfgs[e].dur, cfgs[e].thin, 1)) |->
+                                    LET t == StoredIdx(cfgs[e].dur, cfgs[e].thin, 1)[j] IN
+                                    QRec(AllAt(Tag(e - 1, t)), t, SumDur(cfgs, 1, e - 1) + t)])
 
 \* C09 (composition): kernel k starts from the state its predecessor left
 OrderRespected ==
